@@ -14,7 +14,10 @@ RULE = ("qmail-clean: every request stream over {f,o,p,/,1,NUL,x} and over {t,o,
         "outcomes ok/ENOENT/EIO), %(NR)s seeded random multi-request streams (numbers around 2^32/2^63/2^64 and wrapped, leading zeros, lengths around "
         "100 and beyond the 256-byte buffer, read chunkings), cleanuppid() on a scripted pid/ (every one of 14 name classes incl. '.', '..', a 255-byte name x "
         "stat failure / atime = now-OSSIFIED-1, now-OSSIFIED, now-OSSIFIED+1, 0, now, future x two clocks; the empty directory; failing opendir; NR/8 random "
-        "sessions of 0..70 requests so that the sweeps of iterations 0, 31 and 62 run, each with its own listing of 0..6 entries); spawn.c with qmail-lspawn and with qmail-rspawn: every message id over {1,/,.,a,0xff,:} up to "
+        "sessions of 0..70 requests so that the sweeps of iterations 0, 31 and 62 run, each with its own listing of 0..6 entries), qmail-clean with read()/write() faults: four sessions (3 requests, a wrapped number, "
+        "a cut request, 33 requests with two pid/ sweeps) with {nothing, EINTR, EIO, end of file} at every byte position of the request stream, the rest in reads of 256/1/3 bytes, x every write() index "
+        "{all delivered, fails, interrupted once, twice, interrupted then fails} x three unlink plans, NR/4 random sessions (random read sizes, EINTR anywhere, EIO/EOF at a random place, unterminated tails, "
+        "random write and unlink outcomes, pid/ listings); spawn.c with qmail-lspawn and with qmail-rspawn: every message id over {1,/,.,a,0xff,:} up to "
         "length %(LS)s x delivery numbers {0,1,119,120,121,255} x recipients x 9 open/fstat/pipe/fork outcomes, every child output over {r,h,s,K,Z,D,NUL,x} up to "
         "length %(LS1)s with 6 wait statuses, every exit code and signal, after a first command every sequence of up to %(LS)s events over {second command, "
         "EOF on descriptor 0, child 0/1 reaped while in select (select returns -1), EOF on the pipe of child 0/1, both in one wake-up, output of child 0} "
@@ -23,7 +26,7 @@ RULE = ("qmail-clean: every request stream over {f,o,p,/,1,NUL,x} and over {t,o,
         "writes a complete success report followed by every sequence of up to %(LS)s events over {the child closes its output descriptors and lives on, killed by a "
         "signal / exit 111 / exit 100 / exit 0 seen as SIGCHLD+EOF, as EOF before SIGCHLD, or reaped first with the EOF later, more output, end of input} - the pipe "
         "reaches EOF only when no process holds a write end any more (every close() of the program is recorded), and the oracle lifeOK (no report before the child's "
-        "status was handed over by wait(), K only for exit 0 without signal, a signal -> Z) is evaluated on the trace interleaved with the world's fork/wait events, %(NS)s random sessions (commands cut into arbitrary reads, truncated, oversized, re-used "
+        "status was handed over by wait(), K only for exit 0 without signal, a signal -> Z) is evaluated on the trace interleaved with the world's fork/wait events, every single failing stralloc_append call (and pairs) of getcmd() over three commands (slots 0, 1, 0) read whole or cut after every byte and NS/4 random sessions with 0..3 failing calls (flagabort), %(NS)s random sessions (commands cut into arbitrary reads, truncated, oversized, re-used "
         "delivery numbers, hostile/long child output, exits in any order, reaped first and reported later, descriptor 0 closed in the middle of a third of the sessions); "
         "qmail-send del_dochan: every report stream over {0,1,2,3,4,K,Z,D,x,0xff} up to "
         "length %(LD)s against a world with three deliveries in flight (one on a dying job) and against an idle channel, reports with text lengths REPORTMAX-14 .. REPORTMAX+10 "
@@ -96,6 +99,25 @@ def neighbourhood_cases(dis, seed):
                         d = rnd.choice([-129601, -129600, -2, -1, 1, 2, 129600, 129601])
                         sc2 = re.sub(r"(^|;)(\d+)@", lambda mo: "%s%d@" % (mo.group(1), max(0, int(mo.group(2)) + d)), sc)
                         cases.add("C 0 %s %s %s" % (f.get("plan", "-"), f["in"], sc2))
+            elif kind == "cleanio":
+                rs, wp, pl, sc = f["rs"], f.get("wplan", "-"), f.get("plan", "-"), f.get("scans", "-")
+                cases.add("Q %s %s %s %s" % (rs, wp, pl, sc))
+                toks = rs.split(".") if rs != "-" else []
+                for _ in range(200):
+                    t2 = list(toks)
+                    r = rnd.random()
+                    if r < 0.3:
+                        t2.insert(rnd.randint(0, len(t2)), rnd.choice(["i", "x", "d"]))
+                    elif r < 0.6 and t2:
+                        i = rnd.randrange(len(t2))
+                        if t2[i][0] == "d" and len(t2[i]) > 1:
+                            t2[i] = "d" + (mutate_bytes(rnd, bytes.fromhex(t2[i][1:]), b"0123456789/x\x00fopt d")[:200].hex())
+                    elif t2:
+                        del t2[rnd.randrange(len(t2))]
+                    w2 = bytes(rnd.choice([0, 0, 0, 1, 2]) for _ in range(rnd.randint(0, 6)))
+                    for plan in (pl, "-", "02", "0102"):
+                        cases.add("Q %s %s %s %s" % (".".join(t2) or "-", hx(w2), plan, sc))
+                        cases.add("Q %s %s %s %s" % (".".join(t2) or "-", wp, plan, sc))
             elif kind == "send":
                 b = bytes.fromhex("" if f["in"] == "-" else f["in"])
                 pre = "D %s %s %s %s" % (f["c"], f["jobs"], f["slots"], f["plan"])
@@ -107,6 +129,13 @@ def neighbourhood_cases(dis, seed):
                     # the same stream in every kind of read(): a long report is cut where the reads end
                     for ch in (0, 1, 2, 3, 7, 1023, 1024, 2047, -1, -2, -3, -4):
                         cases.add("%s %d %s" % (pre, ch, f["in"]))
+            elif kind.startswith("spawnoom"):
+                k = kind[-1]
+                cases.add("A %s %s %s %s" % (k, f.get("plan", "-"), f.get("oom", "-"), f["in"]))
+                for _ in range(300):
+                    om = sorted(set(rnd.randint(0, 40) for _ in range(rnd.randint(0, 3))))
+                    for plan in (f.get("plan", "-"), "-", "04"):
+                        cases.add("A %s %s %s %s" % (k, plan, ".".join(map(str, om)) or "-", f["in"]))
             elif kind.startswith("spawn"):
                 k = kind[-1]
                 ops = f["in"].split(".") if f["in"] != "-" else []
@@ -197,7 +226,8 @@ def main():
     c.assumptions += [
         "system calls of the helpers are scripted by the harness: unlink/open/fstat/pipe/fork/select/read outcomes are inputs of both the C run and the model",
         "qmail-clean: now(), opendir/readdir/closedir and stat of pid/<name> are scripted (directory listings, access times, stat failures are inputs of both the C run and the model); the result of cleanuppid's own unlinks is ignored by the code and always 0 in the harness; negative times are not exercised",
-        "spawn.c: out-of-memory (flagabort), write errors on descriptor 1 and EINTR are not exercised; the code after fork() in the child is not run (C11)",
+        "qmail-clean: read() and write() outcomes on descriptors 0 and 1 are scripted (short reads, EINTR, EIO, end of file; write delivered / EINTR / EPIPE); a write() returning 0 (allwrite would spin) and OOM in stralloc are not exercised",
+        "spawn.c: which stralloc_append calls of getcmd() fail is scripted (flagabort); out-of-memory elsewhere (stralloc_copys in docmd, stralloc_readyplus for child output), write errors on descriptor 1 (okwrite) and EINTR on read are not exercised; the code after fork() in the child is not run (C11)",
         "spawn.c: a pipe is modelled as 'EOF iff no write end is open': the child's end is closed by the script (death, or an explicit close while it lives on), the spawner's by its own close() calls, which the harness records",
         "the harness poisons the unused tail of a child's output buffer while report() runs, so a read beyond the output aborts under ASan and is reported with its input",
         "qmail-send: virtualdomains, locals and percenthack are empty in addbounce (stripvdomprepend is the identity); no new delivery starts while the stream is read",
@@ -205,7 +235,7 @@ def main():
     ]
     standard_verdict(c, ok, stats, disagree, oracle, errors,
                      "Clean.run / Spawn.run / SendReport.feed (lean/Nq) vs qmail-clean.c main, spawn.c+qmail-[lr]spawn.c, qmail-send.c del_dochan",
-                     neighbourhood, replay_hint="./check C18 --replay <file of stdin cases: lines 'C …', 'S …', 'D …' as documented in harness/c18_*.c>")
+                     neighbourhood, replay_hint="./check C18 --replay <file of stdin cases: lines 'C …', 'Q …', 'S …', 'A …', 'D …' as documented in harness/c18_*.c>")
     c.finish()
 
 
